@@ -133,12 +133,62 @@ func c20JSONAfter(key string, history int) (labels map[string]string, errText st
 	return labels, errText, s.Panics
 }
 
+// c20ValueCheck: a container carrying Docker label key=value (a valid name) is selected by {key="value"}, and only it.
+func c20ValueCheck(r *vkit.Run, key, value string) {
+	in := c20Input{Key: key + "=" + value, E2E: true}
+	r.Begin("C20/e2e", in)
+	mk := func(id string, labels map[string]string) fakedocker.Container {
+		return fakedocker.Container{ID: id, Name: "/" + id, Image: "img", State: "running", Labels: labels,
+			Log: fakedocker.Encode([]fakedocker.Rec{{Stream: 1, TS: fakedocker.TS(1 * sec), Msg: "from-" + id}})}
+	}
+	other := "other-value"
+	fake := fakedocker.New([]fakedocker.Container{mk("carrier", map[string]string{key: value}), mk("other", map[string]string{key: other}), mk("none", map[string]string{})})
+	var lines []string
+	var errText string
+	s := vsched.RunMain(vsched.NewCtx(nil), func() {
+		q, _ := dockerlog.NewQuerier(fake)
+		data, err := newEngine(q).Eval(context.Background(), "{"+key+"="+strconv.Quote(value)+"}", logqlengine.EvalParams{Start: 0, End: otelstorage.Timestamp(3 * sec), Step: time.Second, Limit: -1})
+		if err != nil {
+			errText = err.Error()
+			return
+		}
+		for _, st := range data.StreamsResult.Result {
+			for _, e := range st.Values {
+				lines = append(lines, e.V)
+			}
+		}
+	})
+	r.Eval()
+	sort.Strings(lines)
+	want := []string{"from-carrier"}
+	if value == "" {
+		want = []string{"from-carrier", "from-none"} // an absent label reads as the empty string
+	}
+	switch {
+	case len(s.Panics) > 0:
+		r.Fail("C20/e2e", in, nil, s.Panics, nil, "panic", "")
+	case errText != "":
+		r.Fail("C20/e2e", in, nil, errText, want, fmt.Sprintf("selector {%s=%q} fails: %s", key, value, errText), "")
+	case strings.Join(lines, ",") != strings.Join(want, ","):
+		r.Fail("C20/e2e", in, nil, lines, want, fmt.Sprintf("selector {%s=%q} over containers labelled %s=%q, %s=%q and without the label returned %v", key, value, key, value, key, other, lines), "")
+	}
+}
+
 func c20Check(r *vkit.Run, in c20Input) {
 	r.Begin("C20", in)
 	key := in.Key
 	r.Eval()
 	r.Step(len(key) + 1)
-	got := otelstorage.KeyToLabel(key)
+	var got string
+	var pan any
+	func() {
+		defer func() { pan = recover() }()
+		got = otelstorage.KeyToLabel(key)
+	}()
+	if pan != nil {
+		r.Fail("C20", in, nil, fmt.Sprint("panic: ", pan), refKeyToLabel(key), fmt.Sprintf("KeyToLabel(%q) panics: %v", key, pan), "")
+		return
+	}
 	want := refKeyToLabel(key)
 	fail := func(why, finding string) {
 		r.Fail("C20", in, nil, got, want, why, finding)
@@ -263,6 +313,13 @@ func c20Run(r *vkit.Run) {
 		}
 	}
 	r.GlobalState("every-character")
+	// Docker labels named like labels the engine derives from a record itself, with values that look like theirs
+	for _, kv := range [][2]string{{"msg", "v"}, {"level", "debug"}, {"level", "Info"}, {"trace_id", "v"}, {"span_id", "v"}, {"msg", ""}, {"k", ""}} {
+		idx++
+		if r.Mine(idx) && !r.Stop() {
+			c20ValueCheck(r, kv[0], kv[1])
+		}
+	}
 	dict := strings.Fields("łódź tašk ıd a.乁 com.docker.compose.project com.docker.compose.service org.opencontainers.image.title org.opencontainers.image.source maintainer io.kubernetes.pod.name desktop.docker.io/binds/0/Source 0day 9 traefik.http.routers.web.rule ip rate count sum sort topk vector bytes duration duration_seconds label_replace inf nan infinity true false null e pi")
 	for k := range c20Keyword {
 		dict = append(dict, k)
@@ -290,6 +347,9 @@ func c20Replay(r *vkit.Run, v vkit.Violation) *vkit.Violation {
 	var in c20Input
 	if err := vkit.DecodeInput(v, &in); err != nil {
 		r.HarnessError("bad input: %v", err)
+	}
+	if k, v, ok := strings.Cut(in.Key, "="); ok && validName.MatchString(k) && in.E2E {
+		return vkit.ReplayOne(r, func() { c20ValueCheck(r, k, v) })
 	}
 	return vkit.ReplayOne(r, func() { c20Check(r, in) })
 }
